@@ -45,7 +45,12 @@ def run(ctx):
             bb, t = pushes[0]
             a0 = N(A.tb.operand(t["args"][0], (bb, len(b.stmts(bb)))))
             a1 = N(A.tb.operand(t["args"][1], (bb, len(b.stmts(bb)))))
-            ci = [f["i"] for f in ba["fields"] if f["name"] == "custom_tags"][0]
+            cis = [f["i"] for f in ba["fields"] if f["name"] == "custom_tags"]
+            if not cis:
+                ctx.fail("ANCHOR", "Builder:representation", "the builder keeps its slots as direct fields (one Option / Vec per tag kind)", ba.get("span", ""),
+                         "no field `custom_tags`: the slots are represented differently; the slot rules are not applicable as written")
+                return ctx.finish("other", "representation anchor missing", [], "")
+            ci = cis[0]
             facts = [N(f) for f in A.g.facts_at(bb)]
             t1 = "multiboot2::tag_type::primitive_conversion_impls::<impl core::convert::From<u32> for multiboot2::tag_type::TagType>::from"
             tt = F.adts["multiboot2::tag_type::TagType"]
